@@ -46,6 +46,7 @@ CLASS_KEY = {
 }
 PRIORITY = ['opaque', 'wh-recreate', 'dropped-entry', 'recreate', 'implicit-dir']
 DUP_KEY = 'C04/same-layer-duplicate-first-wins'
+REQ_KEY = 'C04/squash-requirer-writes-replaced-file'
 STATS = collections.Counter()
 
 
@@ -85,6 +86,9 @@ def _judge1(case, fi, fm):
         return 'FromV1Image or a view operation panicked', None
     if fi.get('err') != '0' or fm.get('err') != '0':
         return None, None
+    if fi.get('acc', '1') != '1':
+        return ('a chain layer accessor disagrees with the image: Index() is not the position, Layer().Command() is not the history entry\'s CreatedBy, '
+                'Layer().IsEmpty() is not the history entry\'s EmptyLayer, or Size() is negative'), None
     for k in ('dec', 'fw', 'sz'):
         if fm.get(k) != '1':
             return 'model self-check %s failed (contradicts a proved theorem: driver/compiler fault)' % k, None
@@ -232,22 +236,27 @@ def _extract_model(layers):
                 continue
             file_map[key] = tomb or typ != 'd'
             if not tomb:
-                out.append((typ, name, 'e' if size == 0 else 'c%dn%d' % (cid % 26, size)))
+                out.append((typ, name, 'e' if size == 0 else 'c%dn%d' % (cid % 26, size), size))
     return out
 
 
-def _unpack_model(entries):
-    """unpack.unpack on the flattened archive, three passes, require-all, no links: {relative path: 'd' | content}, or None when
-    it returns an error (a file where a directory is needed)"""
+def _unpack_model(entries, maxsize=1 << 62, required=None):
+    """unpack.unpack on the flattened archive (the number of passes does not matter without links): entries larger than MaxSizeBytes
+    and entries the requirer does not want (asked with dir/clean, clean and /clean; `required` = None: all) are skipped;
+    {relative path: 'd' | content}, or None when it returns an error (a file where a directory is needed)"""
     disk = {}
     for _ in range(3):
-        for typ, name, content in entries:
+        for typ, name, content, size in entries:
+            if size > maxsize:
+                continue
             clean = _go_clean(name)
             if clean == '..' or clean.startswith('../'):
                 continue                        # isWithinDirectory(dir, Join(dir, cleanPath)) fails
             rel = tuple(c for c in clean.split('/') if c not in ('', '.'))
             if not rel or rel in disk:
                 continue                        # dir itself / already unpacked (Lstat)
+            if required is not None and clean not in required and _go_join('/', clean) not in required:
+                continue                        # (the third spelling, dir/clean, is an absolute host path no case names)
             blocked = False
             for k in range(1, len(rel)):        # mkdirAllInside(dir, parent)
                 cur = disk.get(rel[:k])
@@ -264,8 +273,8 @@ def _unpack_model(entries):
     return disk
 
 
-def _squash_model(layers):
-    disk = _unpack_model(_extract_model(layers))
+def _squash_model(layers, maxsize=1 << 62, required=None):
+    disk = _unpack_model(_extract_model(layers), maxsize, required)
     if disk is None:
         return None
     return sorted(binascii.hexlify('/'.join(k).encode('latin1')).decode() + ':' + v for k, v in disk.items() if v != 'd')
@@ -282,16 +291,25 @@ def _squash_verdict(case, fi, wf):
     view with no excuse."""
     sq = fi.get('squash')
     if sq in (None, 'na') or not wf or wf[-1] != '1':
-        STATS['squash not judged: ' + ('not unpacked (requirer set or size limit below 2^20)' if sq in (None, 'na') else
-                                       'H fails for the final view')] += 1
+        STATS['squash not judged: ' + ('not unpacked' if sq in (None, 'na') else 'H fails for the final view')] += 1
         return None, None
     t = case.split(' ')
-    layers = [[e.split(':') for e in (l.split(';') if l not in ('-', '') else [])] for l in t[5].split('|')]
+    limit = int(t[1])
+    required = None if t[2] == 'A' else (set() if t[2] == 'N' else set(('' if x == '-' else binascii.unhexlify(x).decode('latin1')) for x in t[2][1:].split(',') if x))
+    layers = [[e.split(':') for e in (l.split(';') if l not in ('-', '') else [])] for l in (t[5].split('|') if t[5] != '~' else [])]
     if any(e[0] in 'sho' for l in layers for e in l):
         STATS['squash not judged: image has a symlink, hard link or fifo entry'] += 1
         return None, None              # links, and entry types outside the property's quantifier (mutate.Extract treats a fifo as a file)
     names = [[(e[0], binascii.unhexlify(e[1]).decode('latin1') if e[1] != '-' else '') for e in l] for l in layers]
-    model = _squash_model([[(e[0], n, int(e[3]), int(e[4])) for e, (_, n) in zip(l, nl)] for l, nl in zip(layers, names)])
+    model = _squash_model([[(e[0], n, int(e[3]), int(e[4])) for e, (_, n) in zip(l, nl)] for l, nl in zip(layers, names)], limit, required)
+    if any(e[0] == 'f' and int(e[3]) >= limit for l in layers for e in l):
+        # a file at or above the limit: the loader rejects size >= MaxFileBytes, the unpacker size > MaxFileBytes (both as documented), and a
+        # rejected entry leaves no node in the view: the two are not comparable; the unpacker is held to its model only
+        if sq != 'err' and model is not None and _items(sq) != model:
+            return 'the squashed unpacking with MaxFileBytes=%d is not what mutate.Extract + unpack of the recorded code produce: %s' % (
+                limit, ','.join(sorted(set(model) ^ set(_items(sq)))[:4])), None
+        STATS['squash with a file at or above the limit: held to the model of the unpacker only'] += 1
+        return None, None
     rooted = [n.startswith('/') for l in names for _, n in l]
     mixed = any(rooted) and not all(rooted)
     spelling = 'mixed (some names with a leading "/", some without)' if mixed else ('all names rooted' if rooted and all(rooted) else 'no name rooted')
@@ -337,6 +355,12 @@ def _squash_verdict(case, fi, wf):
         return (text + ' — the image has a whiteout of "", "." or ".." or a directory named .wh.x (no claim about the view), but the files on disk '
                 'are not what mutate.Extract + unpack of the recorded code leave either: %s' % (
                     ','.join(sorted(set(model or []) ^ set(got))[:4]) if model is not None else 'an error')), None
+    if required is not None and model == got:
+        STATS['squash judged, differs: exactly the recorded ' + REQ_KEY + ' behaviour'] += 1
+        return (text + ' (%s; with a requirer the unpacker skips the newer entry that replaced or deleted the path - a directory entry, a '
+                'whiteout\'s effect is kept by mutate.Extract only for entries it drops itself - and then writes the OLDER file that mutate.Extract '
+                'kept in the flattened archive; and for an entry name written with a leading "/" it asks the requirer for dir/p and /p but never '
+                'for p. The files on disk are exactly what the recorded code produces)' % spelling), REQ_KEY
     return text + ' (%s)' % spelling, None
 
 
@@ -412,7 +436,7 @@ def run(ctx):
         return 'H=all' if wf and set(wf) == {'1'} else ('H=some' if '1' in wf else 'H=none')
 
     lib.standard_stream(ctx, gen='c04gen', driver='drv_c04', gen_args=['-seed', str(ctx.seed), '-n', str(n), '-tier', ctx.tier],
-                        compare_keys=['err', 'nv', 'walk', 'look'], nontrivial=nontrivial, oracle=oracle, classify=classify,
+                        compare_keys=['err', 'nv', 'walk', 'look', 'mt'], nontrivial=nontrivial, oracle=oracle, classify=classify,
                         finding_class=finding_class, sample_every=997, strict_known=True)
     d = ctx.dist
     ctx.extra['H_split'] = ('images (load ok) whose views all satisfy H: %d; some views: %d; none: %d; load errors: %d. 25%% of the random images come from a '
